@@ -144,6 +144,46 @@ def job(j):
                             chk = Ls.run("check")
                             if chk.rc != 0:
                                 v.append(dict(kind="check-fails-after-split-rebuilt", where=w3, out=chk.text()[-300:]))
+                # a fixed-size (non-last) split lost, and fix runs while its place has LESS room than when it was written (a fuller
+                # replacement disk): the recorded sizes still dictate the mapping - either a refusal, or a rebuild in place; the
+                # surviving split files keep their recorded bytes either way, and once the room is back a plain fix restores all
+                for l in range(levels):
+                    recl = rec[l] if rec[l] is not None else None
+                    if recl is None or len(paths0[l]) < 2:
+                        continue
+                    lastused = max([i for i, s_ in enumerate(recl) if s_] or [0])
+                    for idx in range(lastused):
+                        small = [lm for lm in range(512, limit, 512) if c.block_size <= plimit(lm, idx, l) < recl[idx]]
+                        if not recl[idx] or not small:
+                            continue
+                        Ls.restore(S0)
+                        os.unlink(paths0[l][idx])
+                        cfg_keep = Ls.cfg
+                        Ls.cfg = Ls.cfg.clone(parity_limit=small[-1])
+                        rf = Ls.run("fix")
+                        Ls.cfg = cfg_keep
+                        w5 = where + " | split %d of level %d lost, fix with less room (limit %d)" % (idx, l, small[-1])
+                        steps += 1
+                        if rf.signal is not None:
+                            v.append(dict(kind="died-with-signal", where=w5, signal=rf.signal))
+                        for l2 in range(levels):
+                            for i2, p_ in enumerate(paths0[l2]):
+                                if (l2, i2) == (l, idx):
+                                    continue
+                                now = labmod._slurp(p_) if os.path.exists(p_) else b""
+                                r2 = rec[l2][i2] if rec[l2] is not None and i2 < len(rec[l2]) else len(bytes0[l2][i2])
+                                if now[:r2] != bytes0[l2][i2][:r2] or len(now) != len(bytes0[l2][i2]):
+                                    v.append(dict(kind="surviving-split-changed-by-fix-with-less-room", where=w5, level=l2, split=i2,
+                                                  size_now=len(now), size_before=len(bytes0[l2][i2]), recorded=r2, fix_rc=rf.rc))
+                        if rf.rc == 0:
+                            chk = Ls.run("check")
+                            if chk.rc != 0:
+                                v.append(dict(kind="fix-with-less-room-reports-success-but-check-fails", where=w5, out=chk.text()[-300:]))
+                        rf2 = Ls.run("fix")
+                        chk = Ls.run("check")
+                        now = labmod._slurp(paths0[l][idx]) if os.path.exists(paths0[l][idx]) else b""
+                        if rf2.rc != 0 or chk.rc != 0 or now[:recl[idx]] != bytes0[l][idx][:recl[idx]]:
+                            v.append(dict(kind="split-not-rebuilt-once-the-room-is-back", where=w5, rc=(rf2.rc, chk.rc), size_now=len(now), recorded=recl[idx]))
                 # the whole parity disk (directory) holding one split is gone, together with a data disk: with a second level fix
                 # --force-device must drop the dead level and rebuild the data from the other one; once the directory is back a plain
                 # fix re-creates the split in place
